@@ -197,6 +197,9 @@ impl Property for C14 {
         return out;
       }
     };
+    if std::env::var("VERIF_DEBUG_C14").is_ok() {
+      eprintln!("queries {:?}\nbefore {:?}", case.queries, before.results);
+    }
     let manifest_before = idx.manifest();
     let seg_before = manifest_before.segments.len();
     let tomb_before: usize = manifest_before.segments.iter().map(|s| s.deleted_docs.len()).sum();
@@ -246,6 +249,9 @@ impl Property for C14 {
           return out;
         }
       };
+      if std::env::var("VERIF_DEBUG_C14").is_ok() {
+        eprintln!("after ({label}) {:?} contents {:?} compact {:?}", after.results, after.contents, res.is_ok());
+      }
       if after.contents != before.contents {
         let diff: Vec<String> = before.contents.keys().chain(after.contents.keys()).filter(|k| before.contents.get(*k) != after.contents.get(*k)).take(2).map(|k| format!("{k}: before {:?} after {:?}", before.contents.get(k), after.contents.get(k))).collect();
         out.fail("contents-changed", format!("compaction ({:?}) changed live documents or stored fields ({label}): {}", res.is_ok(), diff.join("; ")));
@@ -270,7 +276,8 @@ impl Property for C14 {
               model.scored_keys(&case.queries[i], true, &mut keys);
               let differing: Vec<&String> = bv.iter().filter(|x| !av.contains(x)).chain(av.iter().filter(|x| !bv.contains(x))).collect();
               let explained = differing.iter().all(|id| corpus.docs.iter().find(|d| d.id == **id).map(|d| !model.doc_has_scored_key(d, &keys)).unwrap_or(false));
-              if explained && ctx.is_known("C07", crate::props::c07::SIG_CANDIDATES) {
+              // (only a query that has scored terms at all can be affected by that finding)
+              if explained && !keys.is_empty() && ctx.is_known("C07", crate::props::c07::SIG_CANDIDATES) {
                 out.excluded_known += 1;
                 out.class("difference-explained-by-C07-known-finding");
                 continue;
